@@ -72,3 +72,18 @@ add("C13",
     require_counts=["midrun_index_write", "executions:prune/repack-slow", "executions:copy/one-blob-packs"],
     require_max={"max_pending_width": 2},
     )
+
+add("C03",
+    engine="CRASH",
+    level="fault_enumeration",
+    technique="exhaustive crash-point and single-failure enumeration over explored linearisations of the real commands (gate scheduler + recording store)",
+    design_ref="DESIGN.md §4.3, §5 C03",
+    level_text="For 17 command scenarios (backup with parent and mid-run index saves, copy into a non-empty repository, merge, rewrite+forget, repair snapshots after a pack loss, "
+               "repair index default/read-all/after index loss, forget, five prune variants, config change, key add/delete) the store is snapshotted after every mutating backend call of the "
+               "default linearisation and of every linearisation with <=2 (quick) / <=3 (thorough) completion-order deviations; on every distinct crash state a fresh uncached handle must open the repository "
+               "and read every visible snapshot completely with an acceptable (old or new) content. Additionally every mutating call index is made to fail once: the command must return Err, terminate, and leave such a state.",
+    level_note="Crash = loss of all calls after a prefix of the observed linearisation (backend calls are atomic, as with rename-publishing backends, C20). Snapshots that were already unreadable before the command are exempt by id. "
+               "Hot/cold interruption is C16.",
+    shards={"quick": 16, "thorough": 16},
+    require_counts=["linearisations:backup-with-parent", "linearisations:prune-repack-slow", "failed_call_runs", "crash_states"],
+    )
